@@ -346,6 +346,31 @@ func instrumentPackage(fset *token.FileSet, imp types.Importer, lp *listPkg, pi 
 			mutated[g] = true
 		}
 	}
+	// variables assigned in init() functions: their initial value is not the declared one
+	setInInit := map[types.Object]bool{}
+	for _, f := range files {
+		for _, d := range f.Decls {
+			fd, ok := d.(*ast.FuncDecl)
+			if !ok || fd.Recv != nil || fd.Name.Name != "init" || fd.Body == nil {
+				continue
+			}
+			ast.Inspect(fd.Body, func(n ast.Node) bool {
+				switch x := n.(type) {
+				case *ast.AssignStmt:
+					for _, l := range x.Lhs {
+						if g := rootGlobal(l); g != nil {
+							setInInit[g] = true
+						}
+					}
+				case *ast.IncDecStmt:
+					if g := rootGlobal(x.X); g != nil {
+						setInInit[g] = true
+					}
+				}
+				return true
+			})
+		}
+	}
 	if collectOnly {
 		return
 	}
@@ -447,7 +472,7 @@ func instrumentPackage(fset *token.FileSet, imp types.Importer, lp *listPkg, pi 
 			}
 			pos := fset.Position(rs.Pos())
 			site := Site{File: rel, Line: pos.Line, Kind: "range-map", Var: types.ExprString(rs.X)}
-			add(off(rs.X.Pos()), 0, "simrt.Range(")
+			add(off(rs.X.Pos()), 0, "simrt_V.Range(")
 			add(off(rs.X.End()), 0, ")")
 			needSimrt = true
 			site.ID = len(rep.RangeSites)
@@ -467,7 +492,7 @@ func instrumentPackage(fset *token.FileSet, imp types.Importer, lp *listPkg, pi 
 			needSimrt = true
 			if fl, ok := call.Fun.(*ast.FuncLit); ok && len(call.Args) == 0 {
 				// go func() {...}()   ->   simrt.Go(func() {...})
-				add(off(gs.Pos()), int(fl.Pos()-gs.Pos()), "simrt.Go(")
+				add(off(gs.Pos()), int(fl.Pos()-gs.Pos()), "simrt_V.Go(")
 				add(off(fl.End()), int(call.End()-fl.End()), ")")
 				return true
 			}
@@ -478,16 +503,21 @@ func instrumentPackage(fset *token.FileSet, imp types.Importer, lp *listPkg, pi 
 			text := func(a, b token.Pos) string { return string(src[off(a):off(b)]) }
 			pre.WriteString("__f := " + text(call.Fun.Pos(), call.Fun.End()) + "; ")
 			for i, a := range call.Args {
-				fmt.Fprintf(&pre, "__a%d := %s; ", i, text(a.Pos(), a.End()))
 				if i > 0 {
 					args.WriteString(", ")
 				}
+				if tv, ok := info.Types[a]; ok && (tv.Value != nil || tv.IsNil()) {
+					// constants (possibly untyped) and nil are passed as written
+					args.WriteString(text(a.Pos(), a.End()))
+					continue
+				}
+				fmt.Fprintf(&pre, "__a%d := %s; ", i, text(a.Pos(), a.End()))
 				fmt.Fprintf(&args, "__a%d", i)
 				if i == len(call.Args)-1 && call.Ellipsis.IsValid() {
 					args.WriteString("...")
 				}
 			}
-			add(off(gs.Pos()), int(gs.End()-gs.Pos()), "simrt.Go(func() func() { "+pre.String()+"return func() { __f("+args.String()+") } }())")
+			add(off(gs.Pos()), int(gs.End()-gs.Pos()), "simrt_V.Go(func() func() { "+pre.String()+"return func() { __f("+args.String()+") } }())")
 			return false
 		})
 
@@ -498,6 +528,13 @@ func instrumentPackage(fset *token.FileSet, imp types.Importer, lp *listPkg, pi 
 			for cur != nil {
 				p := parents[cur]
 				if st, ok := cur.(ast.Stmt); ok {
+					switch st.(type) {
+					case *ast.CaseClause, *ast.CommClause:
+						// e.g. `case global = <-ch:`: nothing can be inserted in front of a clause;
+						// go on to the enclosing switch/select statement
+						cur = p
+						continue
+					}
 					switch pp := p.(type) {
 					case *ast.BlockStmt:
 						return st
@@ -560,7 +597,7 @@ func instrumentPackage(fset *token.FileSet, imp types.Importer, lp *listPkg, pi 
 			site := Site{ID: *siteID, File: rel, Line: pos.Line, Kind: "global", Var: obj.Name()}
 			*siteID++
 			rep.Sites = append(rep.Sites, site)
-			add(off(st.Pos()), 0, fmt.Sprintf("simrt.Yield(%d); ", site.ID))
+			add(off(st.Pos()), 0, fmt.Sprintf("simrt_V.Yield(%d); ", site.ID))
 			needSimrt = true
 			return true
 		})
@@ -571,7 +608,7 @@ func instrumentPackage(fset *token.FileSet, imp types.Importer, lp *listPkg, pi 
 		}
 		if needSimrt {
 			// after the package clause, same line
-			add(off(f.Name.End()), 0, `; import simrt "verif/simrt"`)
+			add(off(f.Name.End()), 0, `; import simrt_V "verif/simrt"`)
 		}
 		sort.SliceStable(edits, func(a, b int) bool {
 			if edits[a].off != edits[b].off {
@@ -599,6 +636,9 @@ func instrumentPackage(fset *token.FileSet, imp types.Importer, lp *listPkg, pi 
 		vs := globals[g]
 		if !mutated[g] && !usesSync(vs) {
 			continue
+		}
+		if setInInit[g] {
+			continue // cannot be put back without re-running init()
 		}
 		name := g.Name()
 		idx := globalIdx[g]
@@ -692,8 +732,8 @@ func instrumentPackage(fset *token.FileSet, imp types.Importer, lp *listPkg, pi 
 			impLines = append(impLines, fmt.Sprintf("\t%s %q\n", n, p))
 		}
 	}
-	if strings.Contains(bs, "simrt.") {
-		impLines = append(impLines, "\tsimrt \"verif/simrt\"\n")
+	if strings.Contains(bs, "simrt_V.") {
+		impLines = append(impLines, "\tsimrt_V \"verif/simrt\"\n")
 	}
 	sort.Strings(impLines)
 	if len(impLines) > 0 {
